@@ -22,6 +22,6 @@ Next == /\ l <= Len(Trace)
         /\ l' = l + 1
         /\ LET ok == EventOK(Trace[l]) IN
              /\ bad' = IF ok THEN bad ELSE bad \cup {l}
-             /\ (ok \/ PrintT(ToJson([k |-> "bad", in |-> [l |-> l], exp |-> ExpOf(Trace[l])])))
+             /\ IF ok THEN TRUE ELSE PrintT(ToJson([k |-> "bad", in |-> [l |-> l], exp |-> ExpOf(Trace[l])]))
 Done == l = Len(Trace) + 1 => PrintT(ToJson([k |-> "done", in |-> [n |-> Len(Trace), nbad |-> Cardinality(bad)]]))
 ============================================================================
